@@ -113,6 +113,8 @@ func ingest(c *checker, p *Prof, where string) (*storedProf, trie) {
 // (kept exactly as handed over) is consumed; "retry": A is parsed and consumed once (the INSERT "fails"), B is parsed
 // and consumed, then the very same ProfileData of A is consumed again.  Both trees must be what they would be alone.
 func runHistory(a, b *Prof, hist string, via int) *wkpool.CaseResult {
+	// one P while the history runs: a sync.Pool hand-over (Put by one request, Get by the next) is deterministic
+	defer runtime.GOMAXPROCS(runtime.GOMAXPROCS(1))
 	c := newChecker(&replayDoc{Kind: "history", Profs: []*Prof{a, b}, Hist: hist, Via: via})
 	c.res.Key = shortHash("history:" + hist + fmt.Sprint(via) + a.key() + "&" + b.key())
 	pa, err := parse(a, via)
@@ -486,7 +488,6 @@ func main() {
 		if f, err := os.OpenFile(os.DevNull, os.O_WRONLY, 0); err == nil {
 			os.Stdout = f // the reader prints every SQL text it runs
 		}
-		runtime.GOMAXPROCS(1) // one P: a sync.Pool hand-over between two requests is deterministic
 		wkpool.Worker(sp.total, run)
 		return
 	}
